@@ -25,6 +25,9 @@ SKEWS = [1, 1.0, 0.5, 2, 4, 0.25, 1.5, 1.001, 0.999, 1.1, 3.999, 0.04]
 def gen_set(rng, tag):
     nl = rng.choice([1, 1, 2, 3])
     spec = {'langs': [], 'styles': None, 'layout': None}
+    names = rng.sample(['en', 'fr', 'de', 'und', 'und'], nl)
+    if len(set(names)) < nl:
+        names = ['und', 'en', 'fr'][:nl]
     for li in range(nl):
         n = rng.choice([0, 1, 2, 3, 4, 5, 7])
         float_times = rng.random() < 0.25
@@ -74,7 +77,7 @@ def gen_set(rng, tag):
                                  'end': b, 'nodes': nodes, 'style': None, 'layout': None})
                 i += 1
             t = t + dur + rng.choice([0, 0, 1, 1000, 2000000])
-        spec['langs'].append({'lang': ['en', 'fr', 'de'][li], 'layout': None, 'captions': caps})
+        spec['langs'].append({'lang': names[li], 'layout': None, 'captions': caps})
     return spec
 
 
